@@ -331,6 +331,7 @@ def run(ck):
     gate_eq_oracle(ck)
     gate_inverse_oracle(ck)
     sharing_oracle(ck)
+    object_state_oracle(ck)
     clifford_oracle(ck, tables_ok)
     threshold_oracle(ck)
 
@@ -442,6 +443,69 @@ def sharing_oracle(ck):
                     sample={"op": opname, "gates": [sp["name"] for sp in specs]}, tags=[opname])
             for sig, desc in H11.alias_probe(store, list(range(2, len(store))), opname):
                 ck.violation(sig.replace("C11/", "C09/", 1), desc, {"kind": "sharing", "op": opname, "specs": specs})
+
+
+def object_state_oracle(ck):
+    """A circuit object that went through a history of queries and in-place edits must answer like a circuit freshly
+    constructed from its current gate list: split / entangled sets / depth / width / counts / trim must not depend on what
+    was asked or cached before (e.g. entangled sets cached by a first split and not refreshed by reindex_qubits)."""
+    from tangelo.linq import Circuit, Gate
+    rng = ck.rng
+    ck.stream("object-state", "one circuit object x history of 2-5 steps from {split, get_entangled_indices, depth, reindex (permutation), "
+              "add_gate, merge_rotations, remove_redundant_gates}: after every step split(), get_entangled_indices(), depth(), width, counts "
+              "equal those of a circuit constructed from the current gates; non-trivial = history has a query before an edit")
+
+    def view(c):
+        try:
+            pieces = [H11.snapshot(x) for x in c.split()]
+        except Exception as e:
+            pieces = "Err:" + type(e).__name__
+        try:
+            ent = sorted(sorted(x) for x in c.get_entangled_indices())
+        except Exception as e:
+            ent = "Err:" + type(e).__name__
+        return {"split": pieces, "entangled": ent, "depth": c.depth(), "width": c.width, "counts": dict(c.counts)}
+
+    for _ in range(60 if ck.tier == "quick" else 900):
+        n = rng.randint(3, 5)
+        specs = LC.rand_gate_list(rng, n, rng.randint(2, 6), LC.ONE_Q_ROT + ["H", "X", "CNOT", "CZ", "CRZ", "SWAP"], max_controls=1, var_p=0.0)
+        c = Circuit([LC.make_gate(sp) for sp in specs])
+        steps = [rng.choice(["split", "entangled", "depth", "reindex", "reindex", "add_gate", "merge", "redundant"]) for _ in range(rng.randint(2, 5))]
+        done = []
+        for st in steps:
+            try:
+                if st == "split":
+                    c.split()
+                elif st == "entangled":
+                    c.get_entangled_indices()
+                elif st == "depth":
+                    c.depth()
+                elif st == "reindex":
+                    idx = sorted(c._qubit_indices)
+                    perm = idx[:]
+                    rng.shuffle(perm)
+                    c.reindex_qubits(perm)
+                    st = "reindex%s" % perm
+                elif st == "add_gate":
+                    c.add_gate(Gate("CNOT", rng.randrange(n), control=(rng.randrange(n) + 1 + rng.randrange(n - 1)) % n) if rng.random() < 0.5 else Gate("H", rng.randrange(n)))
+                elif st == "merge":
+                    c.merge_rotations()
+                else:
+                    c.remove_redundant_gates()
+            except Exception:
+                break
+            done.append(st)
+            fresh = Circuit([Gate(g.name, list(g.target), None if g.control is None else list(g.control), g.parameter, g.is_variational) for g in c._gates],
+                            n_qubits=c._qubits_simulated)
+            a, b = view(c), view(fresh)
+            if a != b:
+                k = next(x for x in a if a[x] != b[x])
+                ck.violation("C09/object-state/%s-differs-from-fresh-circuit" % k,
+                             "after the history %s the circuit answers %s = %s but a circuit constructed from its current gates answers %s" % (done, k, a[k], b[k]),
+                             {"kind": "object_state", "specs": specs, "history": done})
+                break
+        ck.case("object-state", json.dumps([specs, done], default=str), nontrivial=any(x in ("split", "entangled", "depth") for x in done[:-1]),
+                sample={"history": done}, tags=[x.split("[")[0] for x in done])
 
 
 def clifford_oracle(ck, tables_ok=True):
